@@ -2,25 +2,24 @@ SPECIFICATION MCSpec
 CONSTANTS
  N = 3
  T = 2
- NV = 1
+ NV = 2
  Cmds = {1, 2, 3}
  RepostAppends = TRUE
- Defect = "none"
+ Defect = "bcastNoVerify"
  Honest = {1, 2}
- Args <- ArgsCore
- ByzReqs <- Byz3
- MaxByz = 1
+ Args <- ArgsPlant
+ ByzReqs <- ByzNone
+ MaxByz = 0
  Faults <- FApi
  MaxFault = 1
  Tampers <- TAll
  MaxTamper = 1
- Plants <- PNone
- MaxPlant = 0
+ Plants <- PSome
+ MaxPlant = 1
  Statuses <- SNone
  MaxChain = 0
  InitSt <- IActive
  Policy = "free"
-INVARIANTS Safety Robust
-PROPERTIES MCDeleteOnlyOwn MCRefusedNoEffect
+INVARIANTS PoolSound
 VIEW View
 CHECK_DEADLOCK FALSE
